@@ -275,13 +275,26 @@ def has_untyped_constraint(s):
     return False
 
 
+def degenerate_bounds(s):
+    """a length / count bound of 0, or a lower bound equal to its upper bound, somewhere in the schema (what the library's Rule refuses)"""
+    for x in walk(s):
+        if not isinstance(x, dict):
+            continue
+        if any(x.get(k) == 0 and not isinstance(x.get(k), bool) for k in ("maxLength", "maxItems", "maxProperties")):
+            return True
+        for lo, hi in (("minLength", "maxLength"), ("minItems", "maxItems"), ("minProperties", "maxProperties"), ("minimum", "maximum")):
+            if lo in x and hi in x and x[lo] == x[hi]:
+                return True
+    return False
+
+
 def cause_of_build(s, exc):
     kws = keywords(s)
     if "enum" in kws or "const" in kws:
         if "TypeError" in exc:
             return "enum-or-const"
-    if "ConfigError" in exc:
-        return "constraints-refused"
+    if "ConfigError" in exc and degenerate_bounds(s):
+        return "zero-or-coinciding-bounds"
     return "other"
 
 
